@@ -136,6 +136,11 @@ inductive Step : State → State → Prop
       Step s { s with pool := s.pool ++ [s.ws.length], ws := s.ws ++ [⟨.check, s.now⟩], owner := .notifyOne todo }
   | spawnNo (s : State) (todo) (ho : s.owner = .spawn todo) (h : spawnOk s = false) :
       Step s { s with owner := .notifyOne todo }
+  /-- the system refuses the thread: `std::thread`'s constructor throws inside `pooledThread->start(…)`; the exception leaves
+      `start()` (the pool list is untouched, `notify_one` is skipped) and the owner, having caught it, goes on with its program.
+      Not a step of `xstep?`: executions with a refused thread are judged by the trace monitor of the fault-injection runs. -/
+  | spawnFail (s : State) (todo) (ho : s.owner = .spawn todo) (h : spawnOk s = true) :
+      Step s { s with owner := .idle todo }
   | notifyHit (s : State) (todo) (w : Nat) (wk : Wk) (ho : s.owner = .notifyOne todo) (hw : s.ws[w]? = some wk)
       (hp : wk.pc = .parked false) :
       Step s { s with ws := s.ws.set w { wk with pc := .parked true }, owner := .idle todo }
